@@ -274,14 +274,16 @@ def ends(s):
     return lambda k2: k2.endswith(s)
 
 
-def trace_back(W, fn, operand, through=None, max_steps=12):
+def trace_back(W, fn, operand, through=None, max_steps=12, strict=False):
     """follow a value backwards through moves / value-preserving calls (first argument) to the call or place that
     produced it; returns ('call', term) | ('place', Place) | ('const', ...) | None"""
     from .sem import VALUE_FNS, IDENT_FNS
     pass_through = set(VALUE_FNS) | set(IDENT_FNS) | {'collect', 'map', 'enumerate', 'into_iter', 'iter', 'rev',
                                                       'filter', 'filter_map', 'cloned', 'copied', 'unwrap',
                                                       'expect', 'ok_or', 'ok_or_else', 'map_err', 'branch'}
-    if through:
+    if strict:
+        pass_through = set(through or ())
+    elif through:
         pass_through |= set(through)
     cx = W.ctx(fn)
     op = operand
